@@ -94,6 +94,80 @@ def verdict_reach(*a):
     return LAST[9] is None and LAST[10] is True and LAST[11] >= 1
 
 
+IMP_FAIL = [None, ImportError, SyntaxError, SystemExit, 'zero-exit', 'no-tests', 'bad-suite']
+
+
+def imports(kind, which, mode):
+    """A test module that cannot be imported (ImportError, SyntaxError, SystemExit - also sys.exit(0) at module level -,
+    defines no tests, returns something that is no TestSuite) makes the verdict 'failed' and never aborts or silently ends
+    the run.  Real Find.global_setup -> find_tests -> find_suites with find.find_test_files / find.import_name replaced."""
+    global LAST
+    import types
+    import unittest
+    from zope.testrunner import find as F
+    from vt import loopback as LB
+    from vt import runworld as RW
+    kind = pick(IMP_FAIL, kind)
+    which = ci(which, 0, 1)
+    mode = pick(['seq', 'j2'], mode)
+    W.reset()
+    with untraced():
+        A = W.mk_layer('A', (), hooks='st')
+        t0 = W.mk_test('a0', W.PASS, layer=A)
+        t1 = W.mk_test('u0', W.PASS)
+    n = [0]
+
+    def fake_import(name):
+        i = n[0]
+        n[0] += 1
+        m = types.ModuleType(name)
+        tests = [t0] if name.endswith('one') else [t1]
+        m.test_suite = lambda: unittest.TestSuite(tests)
+        if kind is not None and i % 2 == which:
+            if kind == 'zero-exit':
+                raise SystemExit(0)
+            if kind == 'no-tests':
+                del m.test_suite
+                return m
+            if kind == 'bad-suite':
+                m.test_suite = lambda: 42
+                return m
+            raise kind('injected')
+        return m
+    saved = (F.find_test_files, F.import_name)
+    F.find_test_files = lambda options: iter([('/r/pk/test_one.py', ''), ('/r/pk/test_two.py', '')])
+    F.import_name = fake_import
+    LB.install()
+    LB.reset(lambda: None)          # children discover through the same stubs (found_suites=None)
+    escaped = None
+    code = None
+    try:
+        with RW.Captured():
+            r = R.Runner(args=['t', '--test-path', '/r', '-k'] + (['-j2'] if mode == 'j2' else []), found_suites=None, script_parts=['t'])
+            try:
+                r.run()
+            except BaseException as e:       # noqa
+                if type(e).__name__ in ('IgnoreAttempt', 'UnexploredPath', 'NotDeterministic', 'CrossHairInternal', 'PathTimeout'):
+                    raise
+                escaped = type(e).__name__
+    finally:
+        F.find_test_files, F.import_name = saved
+    ran = sorted({e[2] for e in W.TRACE if e[1] == 'test'})
+    why = None
+    if escaped:
+        why = 'exception %s left Runner.run (module import %r): no verdict at all' % (escaped, kind)
+    elif bool(r.failed) != (kind is not None):
+        why = 'verdict failed=%r although a module %s' % (r.failed, 'could not be imported (%r)' % (kind,) if kind is not None else 'imported fine')
+    else:
+        exp = ['a0', 'u0']
+        if kind is not None:
+            exp = ['u0'] if which == 0 else ['a0']
+        if ran != exp:
+            why = 'tests of the importable modules executed: %r, expected %r' % (ran, exp)
+    LAST = (getattr(kind, '__name__', kind), which, mode, why, tuple(ran))
+    return why is None
+
+
 def exitcode(failed_world):
     """zope.testrunner.run() exits with int(failed)."""
     global LAST
@@ -163,6 +237,11 @@ SPEC = {
                                                     'thorough': _B + ' and mode == 1 and ka == 1 and kb == 0 and not imp and su == 0 and td == 0 and fault == 0'},
          'timeout': {'quick': 400, 'thorough': 1700},
          'fidelity': [_v(), _v(mode=1, ka=3), _v(mode=2, fault=1), _v(mode=2, kb=1, imp=True, noise=False), _v(mode=1, su=2, td=1, b_on_a=True)]},
+        {'name': 'imports', 'fn': 'imports', 'params': [('kind', 'int'), ('which', 'int'), ('mode', 'int')], 'call': 'kind, which, mode',
+         'bounds': {'quick': '0 <= kind < %d and 0 <= which <= 1 and 0 <= mode <= 1' % len(IMP_FAIL), 'thorough': '0 <= kind < %d and 0 <= which <= 1 and 0 <= mode <= 1' % len(IMP_FAIL)},
+         'slices': {'quick': ['mode == 0', 'mode == 1'], 'thorough': ['mode == 0', 'mode == 1']},
+         'timeout': {'quick': 300, 'thorough': 600},
+         'fidelity': [dict(kind=3, which=0, mode=0), dict(kind=4, which=1, mode=1), dict(kind=0, which=0, mode=1)]},
         {'name': 'exitcode', 'fn': 'exitcode', 'params': [('failed_world', 'bool')], 'call': 'failed_world',
          'bounds': {'quick': 'True', 'thorough': 'True'},
          'timeout': {'quick': 120, 'thorough': 120},
